@@ -1,15 +1,27 @@
 from common import STD
 PROPERTY = "C07"
-EXPLANATION = ("Reduced claim: a token waits at a task whose request is pending (real flow loop, harness.run, genericTask.run, taskTrace.process) "
-               "and the context is cancelled by a goroutine of its own, so the cancellation point ranges over the whole scenario under the symbolic "
-               "scheduler. Decided: every token's goroutine exits (the flow wait group reaches zero), the token does not move on, the request is not "
-               "repeated. Termination of the real tracers after cancellation is covered by C09's cancellation scenario (thorough tier); timers by C13's "
-               "cancel scenarios. The corpus of the property (gateways mid-synchronisation, listening catch events, sub-processes, boundary listeners) and "
-               "goroutine-leak freedom of node goroutines are NOT covered.")
+EXPLANATION = ("Reduced claim over a small corpus: a token is at a listening catch event, a half-full parallel join, an exclusive gateway, or the "
+               "alternatives of an event-based gateway (real node goroutines and flow loop), and the context is cancelled - by a goroutine of its own, so the "
+               "cancellation point ranges over the whole scenario under the symbolic scheduler, or once everything is quiet. Decided: every token's goroutine exits "
+               "(the flow wait group reaches zero) and the token does not move on. A token at a pending task (thorough tier) does not close within the budget. "
+               "Termination of the real tracers after cancellation is C09's subject (thorough tier), timers never firing after cancellation C13's, waiters with "
+               "expired contexts C02's. NOT covered: sub-processes, boundary listeners, goroutine-leak freedom of node goroutines (only the flow wait group is "
+               "observed), tracer/relay termination inside an instance, task requests racing with the cancellation.")
 ASSUMPTIONS = ["tracer replaced by the synchronous stub (so tracer termination is not part of this scenario)",
-               "one program (token at a pending task); other node kinds of the property's corpus are outside the registered bounds"]
+               "the exclusive gateway's re-queue path (probe report before the second request) is followed at most once (stated cut)",
+               "corpus of five programs; the other node kinds of the property's corpus are outside the registered bounds"]
+def sc(entry, name, bounds, K=100, tiers=("quick", "thorough")):
+    return dict(name=name, entry=entry, K=K, reach=["quiescent"], overrides=STD, bounds=bounds, spawn_limits={"exclusiveGateway).run": 1}, tiers=tiers,
+                expect_obligations=["a cancelled instance does not move on"])
+
+
 SCENARIOS = [
-    dict(name="C07 cancel while a task request is pending", entry="VerifC07_PendingTask", K=120, reach=["quiescent"], overrides=STD,
+    sc("VerifC07_ListeningCatch", "C07 cancel while a catch event listens (quiet point)", "token listening at a catch event; cancellation once everything is quiet"),
+    sc("VerifC07_ListeningCatchAnywhere", "C07 cancel at an arbitrary point, catch event", "token on its way to / listening at a catch event; cancellation at every point of every interleaving"),
+    sc("VerifC07_ExclusiveGateway", "C07 cancel at an arbitrary point, exclusive gateway", "one token at an exclusive gateway with a conditional and a default flow; cancellation at every point of every interleaving", K=120, tiers=("thorough",)),
+    sc("VerifC07_EventBasedWaiting", "C07 cancel while the alternatives of an event-based gateway wait", "two alternatives (stand-in event nodes) waiting; cancellation once everything is quiet", K=120),
+    sc("VerifC07_HalfFullJoin", "C07 cancel at an arbitrary point, half-full parallel join", "one token at a 2-way parallel join; cancellation at every point of every interleaving"),
+    dict(name="C07 cancel while a task request is pending", entry="VerifC07_PendingTask", K=120, reach=["quiescent"], overrides=STD, tiers=("thorough",),
          expect_obligations=["a cancelled instance does not move on"],
          bounds="one token at a pending task, cancellation at every point of every interleaving"),
 ]
